@@ -1,5 +1,267 @@
-(* C14 — placeholder until the proof files land (the prove-C14 builder owns this file). *)
-From MT Require Import Types StubSet.
-Theorem equivb_any_refl_partial : equivb TAny TAny = true.
-Proof. reflexivity. Qed.
-Print Assumptions equivb_any_refl_partial.
+(* C14 — generating a stub from the same set of distinct traces gives the same stub up to the order of union
+   members: what is PROVED here (for all inputs) is
+     (1) "equal up to union order / duplication / TypedDict field order" (equivb) is an equivalence relation on
+         well-formed types and equivalent types admit exactly the same values at every position;
+     (2) what Union[...] admits does not depend on the order or multiplicity of the members it is built from;
+     (3) the skeleton is order-insensitive: the set of distinct rows does not depend on the order or duplication of
+         rows, and the rendering order (sort by name) is a function of the set of names;
+     (4, partial) for TypedDict-free types, what the merged type (shrink_types) admits depends only on the SET of
+         traced types.
+   What is NOT proved is kept as the Gallina propositions C14_merge_full / C14_full at the end (tested only). *)
+From MT Require Import Types StubSet Infer Rewrite TypesFacts StubSetEquiv StubSetOrder StubSetMerge.
+From Coq Require Import Sorting.Permutation.
+
+(* ---------------- (1) the equivalence and what it preserves ---------------- *)
+Theorem member_equivb :
+  forall anyb sub a b v, wf_ty a -> wf_ty b -> equivb a b = true -> member anyb sub v a = member anyb sub v b.
+Proof. exact StubSetEquiv.member_equivb. Qed.
+Print Assumptions member_equivb.
+
+Theorem equivb_refl : forall t, wf_ty t -> equivb t t = true.
+Proof. exact StubSetEquiv.equivb_refl. Qed.
+Print Assumptions equivb_refl.
+
+Theorem equivb_sym : forall a b, wf_ty a -> wf_ty b -> equivb a b = true -> equivb b a = true.
+Proof. exact StubSetEquiv.equivb_sym. Qed.
+Print Assumptions equivb_sym.
+
+Theorem equivb_trans :
+  forall a b c, wf_ty a -> wf_ty b -> wf_ty c -> equivb a b = true -> equivb b c = true -> equivb a c = true.
+Proof. exact StubSetEquiv.equivb_trans. Qed.
+Print Assumptions equivb_trans.
+
+(* on TypedDict-free types the equivalence is exactly Python's == on typing objects *)
+Theorem py_eqb_is_equivb_tdfree :
+  forall a b, has_td a = false -> has_td b = false -> py_eqb a b = equivb a b.
+Proof. exact StubSetMerge.py_eqb_equivb_tdfree. Qed.
+Print Assumptions py_eqb_is_equivb_tdfree.
+
+Example ex_member_equivb :
+  let a := TUnion [TCls cInt; TList (TUnion [TCls cStr; TCls cNone]);
+                   TTypedDict [("a"%string, TCls cInt); ("b"%string, TUnion [TCls cInt; TCls cStr])] []] in
+  let b := TUnion [TTypedDict [("b"%string, TUnion [TCls cStr; TCls cInt; TCls cStr]); ("a"%string, TCls cInt)] [];
+                   TList (TUnion [TCls cNone; TCls cStr]); TCls cInt; TCls cInt] in
+  equivb a b = true /\ ty_eqb a b = false /\ equivb a a = true /\ equivb b a = true
+  /\ equivb a (TUnion [TCls cInt]) = false.
+Proof. vm_compute. repeat split; reflexivity. Qed.
+
+(* well-formedness (distinct field names) is needed for reflexivity: a repeated field name shadows *)
+Example ex_equivb_refl_needs_wf :
+  let t := TTypedDict [("a"%string, TCls cInt); ("a"%string, TCls cStr)] [] in equivb t t = false.
+Proof. vm_compute. reflexivity. Qed.
+
+(* ---------------- (2) Union[...] ---------------- *)
+Theorem union_mk_perm_members :
+  forall anyb sub ts ts', Permutation ts ts' -> Forall wf_ty ts ->
+    forall v, member anyb sub v (union_mk ts) = member anyb sub v (union_mk ts').
+Proof. exact StubSetOrder.union_mk_perm_members. Qed.
+Print Assumptions union_mk_perm_members.
+
+(* ... nor on multiplicity *)
+Theorem union_mk_set_members :
+  forall anyb sub ts ts', incl ts ts' -> incl ts' ts -> Forall wf_ty ts -> Forall wf_ty ts' ->
+    forall v, member anyb sub v (union_mk ts) = member anyb sub v (union_mk ts').
+Proof. exact StubSetOrder.union_mk_set_members. Qed.
+Print Assumptions union_mk_set_members.
+
+Example ex_union_mk_perm :
+  let ts  := [TCls cInt; TUnion [TCls cStr; TCls cNone]; TList (TCls cInt); TCls cInt] in
+  let ts' := [TList (TCls cInt); TCls cInt; TUnion [TCls cStr; TCls cNone]; TCls cInt; TList (TCls cInt)] in
+  union_mk ts = TUnion [TCls cInt; TCls cStr; TCls cNone; TList (TCls cInt)]
+  /\ union_mk ts' = TUnion [TList (TCls cInt); TCls cInt; TCls cStr; TCls cNone]
+  /\ equivb (union_mk ts) (union_mk ts') = true
+  /\ forallb (fun x => existsb (ty_eqb x) ts') ts && forallb (fun x => existsb (ty_eqb x) ts) ts' = true.
+Proof. vm_compute. repeat split; reflexivity. Qed.
+
+(* ---------------- (3) the skeleton ---------------- *)
+(* sorting: for a total, transitive order that separates the elements of l, the sorted list is a function of
+   the multiset *)
+Theorem isort_perm :
+  forall (A : Type) (leb : A -> A -> bool),
+    (forall a b, leb a b = true \/ leb b a = true) ->
+    (forall a b c, leb a b = true -> leb b c = true -> leb a c = true) ->
+    forall l l',
+      (forall a b, In a l -> In b l -> leb a b = true -> leb b a = true -> a = b) ->
+      Permutation l l' -> isort leb l = isort leb l'.
+Proof. exact @StubSetOrder.isort_perm. Qed.
+Print Assumptions isort_perm.
+
+(* the form used by ModuleStub/ClassStub: entries sorted by name, names pairwise distinct *)
+Theorem isort_perm_keys :
+  forall (A K : Type) (key : A -> K) (kleb : K -> K -> bool),
+    (forall a b, kleb a b = true \/ kleb b a = true) ->
+    (forall a b c, kleb a b = true -> kleb b c = true -> kleb a c = true) ->
+    (forall a b, kleb a b = true -> kleb b a = true -> a = b) ->
+    forall l l', NoDup (map key l) -> Permutation l l' ->
+      isort (fun x y => kleb (key x) (key y)) l = isort (fun x y => kleb (key x) (key y)) l'.
+Proof. exact @StubSetOrder.isort_perm_keys. Qed.
+Print Assumptions isort_perm_keys.
+
+Example ex_isort_perm :
+  let l  := [(5%N, "f"%string); (2%N, "b"%string); (9%N, "z"%string); (3%N, "c"%string)] in
+  let l' := [(3%N, "c"%string); (9%N, "z"%string); (5%N, "f"%string); (2%N, "b"%string)] in
+  NoDup (map fst l) /\ Permutation l l' /\ l <> l'
+  /\ isort (fun x y => N.leb (fst x) (fst y)) l = [(2%N, "b"%string); (3%N, "c"%string); (5%N, "f"%string); (9%N, "z"%string)]
+  /\ isort (fun x y => N.leb (fst x) (fst y)) l' = isort (fun x y => N.leb (fst x) (fst y)) l.
+Proof.
+  cbv zeta. split; [|split; [|split; [discriminate|vm_compute; split; reflexivity]]].
+  - cbn [map fst]. repeat constructor; cbn [In]; intros H; repeat destruct H as [H|H]; try discriminate H; exact H.
+  - (* both are permutations of their common sorted form *)
+    set (leb := fun x y : N * string => N.leb (fst x) (fst y)).
+    match goal with |- Permutation ?a ?b =>
+      apply (Permutation_trans (l' := isort leb a)); [apply Permutation_sym; apply isort_permutation|];
+      replace (isort leb a) with (isort leb b) by (vm_compute; reflexivity); apply isort_permutation end.
+Qed.
+
+(* with a repeated name the (stable) sort is order-dependent: the distinct-names premise is needed *)
+Example ex_isort_dupkey_order_dependent :
+  let l  := [(1%N, "a"%string); (1%N, "b"%string)] in
+  let l' := [(1%N, "b"%string); (1%N, "a"%string)] in
+  isort (fun x y => N.leb (fst x) (fst y)) l <> isort (fun x y => N.leb (fst x) (fst y)) l'.
+Proof. exact StubSetOrder.ex_isort_dupkey_order_dependent. Qed.
+
+(* the set of distinct rows: GROUP BY keeps one representative of every row ... *)
+Theorem nodupb_same_set :
+  forall (K : Type) (keyb : K -> K -> bool),
+    (forall x, keyb x x = true) ->
+    (forall x y z, keyb x y = true -> keyb y z = true -> keyb x z = true) ->
+    forall l, same_set keyb (nodupb keyb l) l = true.
+Proof. exact @StubSetOrder.nodupb_same_set. Qed.
+Print Assumptions nodupb_same_set.
+
+(* ... a reordering of the rows is the same set ... *)
+Theorem same_set_perm :
+  forall (K : Type) (keyb : K -> K -> bool), (forall x, keyb x x = true) ->
+    forall l l', Permutation l l' -> same_set keyb l l' = true.
+Proof. exact @StubSetOrder.same_set_perm. Qed.
+Print Assumptions same_set_perm.
+
+(* ... hence two stores holding the same rows in any order and any multiplicity give the same distinct rows *)
+Theorem nodupb_set_invariant :
+  forall (K : Type) (keyb : K -> K -> bool),
+    (forall x, keyb x x = true) ->
+    (forall x y z, keyb x y = true -> keyb y z = true -> keyb x z = true) ->
+    forall l l', incl l l' -> incl l' l -> same_set keyb (nodupb keyb l) (nodupb keyb l') = true.
+Proof. exact @StubSetOrder.nodupb_set_invariant. Qed.
+Print Assumptions nodupb_set_invariant.
+
+Theorem nodupb_perm_invariant :
+  forall (K : Type) (keyb : K -> K -> bool),
+    (forall x, keyb x x = true) ->
+    (forall x y z, keyb x y = true -> keyb y z = true -> keyb x z = true) ->
+    forall l l', Permutation l l' -> same_set keyb (nodupb keyb l) (nodupb keyb l') = true.
+Proof. exact @StubSetOrder.nodupb_perm_invariant. Qed.
+Print Assumptions nodupb_perm_invariant.
+
+Example ex_nodupb_same_set :
+  let l  := [3%N; 1%N; 3%N; 2%N; 1%N; 3%N] in
+  let l' := [1%N; 2%N; 2%N; 3%N] in
+  nodupb N.eqb l = [2%N; 1%N; 3%N] /\ nodupb N.eqb l' = [1%N; 2%N; 3%N]
+  /\ same_set N.eqb (nodupb N.eqb l) l = true
+  /\ same_set N.eqb (nodupb N.eqb l) (nodupb N.eqb l') = true
+  /\ same_set N.eqb l [1%N; 2%N] = false.
+Proof. vm_compute. repeat split; reflexivity. Qed.
+
+(* transitivity of the row test is needed (reflexivity alone is not enough) *)
+Example ex_nodupb_needs_trans :
+  let keyb := fun a b : N => N.eqb a b || (N.eqb a 0 && N.eqb b 1) || (N.eqb a 1 && N.eqb b 2) in
+  (forall x, In x [0%N; 1%N; 2%N] -> keyb x x = true)
+  /\ nodupb keyb [0%N; 1%N; 2%N] = [2%N]
+  /\ same_set keyb (nodupb keyb [0%N; 1%N; 2%N]) [0%N; 1%N; 2%N] = false.
+Proof. exact StubSetOrder.ex_nodupb_needs_trans. Qed.
+
+(* ---------------- (4) the merge, PARTIAL: TypedDict-free types ---------------- *)
+(* k (max_typed_dict_size) arbitrary; fuel as computed by shrink_top on either side *)
+Theorem merge_tdfree_perm_partial :
+  forall anyb sub k ts ts' t t',
+    Forall (fun t => has_td t = false) ts -> Forall wf_ty ts -> Permutation ts ts' ->
+    shrink_top k ts = Some t -> shrink_top k ts' = Some t' ->
+    forall v, member anyb sub v t = member anyb sub v t'.
+Proof. exact StubSetMerge.shrink_top_perm_invariant. Qed.
+Print Assumptions merge_tdfree_perm_partial.
+
+(* ... and multiplicity (the same SET of types) *)
+Theorem merge_tdfree_set_partial :
+  forall anyb sub k ts ts' t t',
+    Forall (fun t => has_td t = false) ts -> incl ts ts' -> incl ts' ts ->
+    shrink_top k ts = Some t -> shrink_top k ts' = Some t' ->
+    forall v, member anyb sub v t = member anyb sub v t'.
+Proof. exact StubSetMerge.shrink_top_set_invariant. Qed.
+Print Assumptions merge_tdfree_set_partial.
+
+Example ex_merge_tdfree_perm :
+  let i := TCls cInt in let s := TCls cStr in
+  let ts  := [TList i; TList (TUnion [i; s]); TList TAny; TList s] in
+  let ts' := [TList s; TList TAny; TList (TUnion [i; s]); TList i; TList s] in
+  let us  := [i; TUnion [s; TCls cNone]; TList i] in
+  let us' := [TList i; TUnion [s; TCls cNone]; i; TList i] in
+  forallb (fun t => negb (has_td t)) (ts ++ us) = true
+  /\ shrink_top 3 ts = Some (TList (TUnion [i; s]))
+  /\ shrink_top 3 ts' = Some (TList (TUnion [s; i]))
+  /\ shrink_top 3 us = Some (TUnion [i; s; TCls cNone; TList i])
+  /\ shrink_top 3 us' = Some (TUnion [TList i; s; TCls cNone; i]).
+Proof. vm_compute. repeat split; reflexivity. Qed.
+
+(* ---------------- what is left open (statements only; tested on small scopes, not proved) ---------------- *)
+(* the merged type itself (TypedDicts included) is the same up to equivb, whatever the order of the traces *)
+Definition C14_merge_full : Prop :=
+  forall k ts ts', Forall wf_ty ts -> Permutation ts ts' ->
+    opt_equivb (shrink_top k ts) (shrink_top k ts') = true.
+
+(* two classes never list their shared ancestors in different orders *)
+Fixpoint listN_eqb (a b : list cls) : bool :=
+  match a, b with [], [] => true | x :: a', y :: b' => N.eqb x y && listN_eqb a' b' | _, _ => false end.
+Definition mro_consistentb (h : hierarchy) : bool :=
+  forallb (fun e => forallb (fun e' =>
+     listN_eqb (filter (fun a => memN a (snd e')) (snd e)) (filter (fun a => memN a (snd e)) (snd e'))) h) h.
+
+(* the annotation after the rewriter chain, for hierarchies satisfying H *)
+Definition C14_rw_stmt (H : hierarchy -> bool) : Prop :=
+  forall k h bt rs ts ts' t t', H h = true -> Forall wf_ty ts -> Permutation ts ts' ->
+    shrink_top k ts = Some t -> shrink_top k ts' = Some t' ->
+    equivb (rw_chain h bt rs t) (rw_chain h bt rs t') = true.
+
+Definition C14_full : Prop := C14_rw_stmt mro_consistentb.
+
+(* Without the premise on the hierarchy the statement is FALSE: RewriteLargeUnion picks the first common
+   ancestor in the MRO of the FIRST union member, and the first member follows the trace order
+   (finding class kf_rlu_ambiguous_ancestor).  Classes 16 = X(A,B), 17 = Y(B,A), 18..21 = Z_i(A,B). *)
+Definition h_amb : hierarchy :=
+  [(16%N, [16%N; 30%N; 31%N; cObject]); (17%N, [17%N; 31%N; 30%N; cObject]); (18%N, [18%N; 30%N; 31%N; cObject]);
+   (19%N, [19%N; 30%N; 31%N; cObject]); (20%N, [20%N; 30%N; 31%N; cObject]); (21%N, [21%N; 30%N; 31%N; cObject]);
+   (30%N, [30%N; cObject]); (31%N, [31%N; cObject])].
+
+Example ex_rlu_order_dependent :
+  let chain := [RRemoveEmpty; RConfigDict; RLargeUnion 5; RGenerator] in
+  let ts  := map TCls [16%N; 17%N; 18%N; 19%N; 20%N; 21%N] in
+  let ts' := map TCls [17%N; 16%N; 18%N; 19%N; 20%N; 21%N] in
+  shrink_top 3 ts = Some (TUnion ts) /\ shrink_top 3 ts' = Some (TUnion ts')
+  /\ rw_chain h_amb [] chain (TUnion ts) = TCls 30%N
+  /\ rw_chain h_amb [] chain (TUnion ts') = TCls 31%N
+  /\ mro_consistentb h_amb = false.
+Proof. vm_compute. repeat split; reflexivity. Qed.
+
+Theorem C14_rw_unrestricted_refuted : ~ C14_rw_stmt (fun _ => true).
+Proof.
+  intros H.
+  specialize (H 3 h_amb [] [RRemoveEmpty; RConfigDict; RLargeUnion 5; RGenerator]
+                (map TCls [16%N; 17%N; 18%N; 19%N; 20%N; 21%N])
+                (map TCls [17%N; 16%N; 18%N; 19%N; 20%N; 21%N])
+                (TUnion (map TCls [16%N; 17%N; 18%N; 19%N; 20%N; 21%N]))
+                (TUnion (map TCls [17%N; 16%N; 18%N; 19%N; 20%N; 21%N]))
+                eq_refl).
+  assert (E : false = true); [|discriminate E].
+  apply H.
+  - cbn [map]. repeat constructor.
+  - cbn [map]. apply perm_swap.
+  - vm_compute. reflexivity.
+  - vm_compute. reflexivity.
+Qed.
+Print Assumptions C14_rw_unrestricted_refuted.
+
+(* the premise of C14_full is satisfiable by a hierarchy with multiple inheritance *)
+Example ex_mro_consistent :
+  mro_consistentb [(16%N, [16%N; 30%N; 31%N; cObject]); (17%N, [17%N; 30%N; 31%N; cObject]);
+                   (18%N, [18%N; 16%N; 30%N; 31%N; cObject]); (19%N, [19%N; 31%N; cObject]);
+                   (30%N, [30%N; cObject]); (31%N, [31%N; cObject])] = true.
+Proof. vm_compute. reflexivity. Qed.
